@@ -93,6 +93,25 @@ def regenerate(res):
     return None
 
 
+def regenerate_sibling_tables(res):
+    """Proofs/C14Schema.lean states C14 over the C08 method table (Gen/MethodOps.lean) and the C12 converter tables
+    (Gen/ConvAccess.lean): regenerate both from REPO with the siblings' own translators (rewritten only when changed),
+    so that the C14 proof obligation belongs to the tree this run is about."""
+    from . import c08, c12
+    ok, err = c08.translate(res)
+    if not ok:
+        return "C08 method-table translator (harness/opsgen): " + err
+    ok, out = C.build_harness("C12")
+    if not ok:
+        return "C12 harness (converter-table translator) does not build:\n" + out[-2000:]
+    env = C.goenv(); env["C12_GEN"] = c12.GEN; env["VERIF_REPO"] = C.REPO
+    with C.Lock("c12-gen"):
+        rc, out = C.run([C.harness_bin("C12")], env=env, timeout=600)
+    if rc != 0:
+        return "C12 converter-table translator: " + out[-2000:]
+    return None
+
+
 def conflicts(res):
     """The cells of the regenerated table that falsify raceFree, computed by the Lean model itself (driver_c14
     `conflicts`): [(loc, [fn, ...])]. Empty when the table is race-free (or the driver does not build)."""
@@ -217,6 +236,10 @@ def run(res):
     err = regenerate(res)
     if err:
         C.tie_broken(res, "translator C14/lock-sets", err)
+        return res.finish()
+    err = regenerate_sibling_tables(res)
+    if err:
+        C.tie_broken(res, "translator C14/sibling tables (C08 method table, C12 converter tables)", err)
         return res.finish()
     # structure fingerprints of the functions Model/Conc.lean transcribes (registry, configuration): an edit aims the run —
     # the history recorder, whose histories call every one of them, runs at the thorough size
